@@ -70,15 +70,78 @@ def bound_ok(x):
     return x is not None  # None as a label cannot be a slice bound: in a slice it means "open end"
 
 
+def alt_labels(label):
+    """Other spellings of the same label (equal under ==, as list.index sees them): what indexing an array or a pandas object hands back."""
+    import datetime
+    import pandas as pd
+    out = []
+    if isinstance(label, bool) or label is None:
+        return out
+    if isinstance(label, (int, np.integer)):
+        out += [np.int64(label), np.int32(label), float(label), np.float64(label)]
+    elif isinstance(label, str):
+        out += [np.str_(label)]
+    elif isinstance(label, pd.Timestamp):
+        out += [np.datetime64(label, 'D'), np.datetime64(label, 'ns'), np.datetime64(label, 's'), label.to_pydatetime()]
+    return out
+
+
+def extra_absent(labels):
+    """Labels that are NOT in the span but convert (int(), str()) to one that is."""
+    out = []
+    for label in labels[:2]:
+        if isinstance(label, (int, np.integer)) and not isinstance(label, bool):
+            out += [int(label) + 0.5, np.float64(int(label) + 0.25), str(label), -(abs(int(label)) + 0.5)]
+        elif isinstance(label, str):
+            out += [label + ' ', label.upper() if label.upper() != label else label.lower()]
+    return [x for x in out if not any(_eq(x, l) for l in labels)]
+
+
+def _eq(a, b):
+    try:
+        return bool(a == b)
+    except Exception:
+        return False
+
+
 def run_label_case(case):
     kind, n, obj, i, mode = case['span'], case['n'], case['obj'], case['i'], case['mode']
     c, labels = make(kind, n, obj)
     out = []
-    if i == 'absent-tuple':
+    if isinstance(i, (list, tuple)) and i[0] == 'alt':
+        # another spelling of label number i[1]: it addresses the same period (or is rejected with KeyError - never another period)
+        label = alt_labels(labels[i[1]])[i[2]]
+        try:
+            pos = labels.index(label)
+        except Exception:
+            return out
+        if pos != i[1]:
+            return out
+        before = snap(c)
+        try:
+            got = c['Y', label] if mode == 'get' else c.__setitem__(('K', label), -7)
+        except Exception as e:
+            return [('alt-label:%s:%s' % (mode, type(e).__name__), 'the period of the label', repr(e)[:120], 'an equal spelling %r (%s) of a label that list(span).index() finds is rejected' % (label, type(label).__name__))]
+        after = snap(c)
+        if mode == 'get':
+            if not same(got, before['Y'][pos]):
+                out.append(('alt-label:get', float(before['Y'][pos]), repr(got)[:80], 'an equal spelling %r of a label read another element' % (label,)))
+        else:
+            want = before['K'].copy()
+            want[pos] = -7
+            if not same(after['K'], want) or not same(after['Y'], before['Y']):
+                out.append(('alt-label:set', want.tolist(), after['K'].tolist(), 'an equal spelling %r of a label wrote other cells' % (label,)))
+        return out
+    if isinstance(i, (list, tuple)) and i[0] == 'absent-extra':
+        label = extra_absent(labels)[i[1]]
+        i = 'absent'
+    elif i == 'absent-tuple':
         label = (labels[0],)  # a 1-tuple wrapping an existing label is a different (absent) label
         i = 'absent'
+    elif i == 'absent':
+        label = spans.absent_label(kind)
     else:
-        label = spans.absent_label(kind) if i == 'absent' else labels[i]
+        label = labels[i]
     before = snap(c)
     if mode == 'get':
         try:
@@ -269,6 +332,7 @@ def run_block(block, tier, seed):
                     acc.violation(key, case, exp, obs, what)
     _, labels = spans.make(kind, n)
     choices = list(range(n)) + ['absent'] + ([] if kind.startswith('np_') or kind == 'list_mixed' else ['absent-tuple'])
+    choices = choices + [['alt', i, j] for i in range(n) for j in range(len(alt_labels(labels[i])))] + [['absent-extra', j] for j in range(len(extra_absent(labels)))]
     for i in choices:
         for mode in ('get', 'set'):
             case = dict(kind='label', span=kind, n=n, obj=obj, i=i, mode=mode)
